@@ -3,14 +3,32 @@
 From Coq Require Import List Ascii String Bool Arith. Import ListNotations.
 From E Require Import EditModel EditRun EditProofs EditLaws.
 
-Inductive mop := MGet (k : str) | MSet (k : str) (t : str) | MDel (k : str).
+Inductive mop := MGet (k : str) | MSet (k : str) (t : str) | MDel (k : str)
+  | MSetIn (outers : list str) (k : str) (t : str)   (* src[o1]...[on][k] = t : assignment through nested (explicit or attrpath-derived) sets *)
+  | MGetIn (outers : list str) (k : str).
 (* expectation: for MGet the atom text / "is a set" / missing; for MSet nothing; for MDel ok or KeyError; plus the view *)
 Inductive mexp := XAtom (t : str) | XSet | XMissing | XOk | XKeyErr.
+(* follow set-valued bindings by name *)
+Fixpoint nav (st0 : st) (r : sref) (outers : list str) : option sref :=
+  match outers with
+  | [] => Some r
+  | o :: rest => match find_by_name st0 (vals_of st0 r) o with
+                 | Some i => match val_of st0 i with VSet _ _ _ => nav st0 (SOwn i) rest | VAt _ => None end
+                 | None => None end
+  end.
 Definition step (st0 : st) (o : mop) : st * mexp :=
   match o with
   | MGet k => (st0, match getitem st0 SRoot k with Some (VAt t) => XAtom t | Some (VSet _ _ _) => XSet | None => XMissing end)
   | MSet k t => (set_setitem st0 SRoot k (VAt t), XOk)
   | MDel k => let '(s1, r) := set_delitem st0 SRoot k in (s1, match r with Ok _ => XOk | Err _ => XKeyErr end)
+  | MSetIn outers k t =>
+      match nav st0 SRoot outers with
+      | Some r => (set_setitem st0 r k (VAt t), XOk)
+      | None => (st0, XMissing) end
+  | MGetIn outers k =>
+      match nav st0 SRoot outers with
+      | Some r => (st0, match getitem st0 r k with Some (VAt t) => XAtom t | Some (VSet _ _ _) => XSet | None => XMissing end)
+      | None => (st0, XMissing) end
   end.
 Definition mexp_eqb (a b : mexp) : bool :=
   match a, b with XAtom x, XAtom y => streq x y | XSet, XSet | XMissing, XMissing | XOk, XOk | XKeyErr, XKeyErr => true | _, _ => false end.
